@@ -185,6 +185,7 @@ class Driver:
         self.sim._script_for = self._script_for
         self.after_loop: List[Callable] = []
         self.after_cmd: List[Callable] = []
+        self.after_restart: List[Callable] = []
         self.model = Model(spec)
 
     async def loop(self) -> bool:
@@ -204,7 +205,7 @@ class Driver:
     COMMANDS = (
         'hold', 'release', 'hold-point', 'release-hold-point', 'trigger',
         'remove', 'set', 'pause', 'resume', 'stop-point', 'stop-task',
-        'stop-clean', 'stop-now', 'kill', 'reload',
+        'stop-clean', 'stop-now', 'kill', 'reload', 'restart',
     )
 
     async def step(self, op, n, *rest) -> None:
@@ -402,6 +403,68 @@ class Driver:
         from cylc.flow import commands
         if self.sim.running:
             await self._run('reload', commands.reload_workflow(self.sim.schd))
+
+    # -- stop / restart --------------------------------------------------------
+    async def stop_and_wait(self, mode='now', cap=400) -> bool:
+        """Issue a real stop command and step until the scheduler is down.
+
+        mode 'now'  : `cylc stop --now` - no job is advanced, no message
+                      delivered while it shuts down (active jobs are left);
+             'clean': `cylc stop` - active jobs are run to completion under
+                      the fair schedule (the scheduler waits for them).
+        Returns True once the scheduler has shut down."""
+        sim = self.sim
+        if not sim.running:
+            return True
+        await getattr(self, 'cmd_stop_' + mode)(0)
+        for _ in range(cap):
+            if not sim.running:
+                break
+            if mode == 'clean':
+                for it in sim.pending_cmds():
+                    sim.mark_returned(it)
+                for job in sorted(sim.live_jobs(), key=lambda j: j.key):
+                    # only jobs the scheduler waits for: those of active tasks
+                    sim.advance(job)
+                for m in list(sim.inflight):
+                    sim.deliver(m)
+            if not await self.loop():
+                break
+        return not sim.running
+
+    async def restart(self, **opts):
+        """Start a new scheduler incarnation on the same run directory."""
+        sim = self.sim
+        assert not sim.running
+        if sim.crashed is not None:
+            raise sim.crashed
+        await self.start(**opts)
+        sim.ev('restarted', pool=sim.pool_snapshot())
+        for fn in self.after_restart:
+            fn(self)
+
+    async def cmd_restart(self, n):
+        """Schedule step: stop (n%2: 0 --now, 1 clean), let jobs carry on
+        while the scheduler is down ((n//2)%3: 0 nothing, 1 one step each,
+        2 to the end; their messages are lost, as a real `cylc message` to a
+        stopped scheduler fails), then restart."""
+        sim = self.sim
+        if not sim.running:
+            return
+        mode = 'now' if n % 2 == 0 else 'clean'
+        down = await self.stop_and_wait(mode)
+        if not down or sim.crashed is not None:
+            return
+        act = (n // 2) % 3
+        for m in list(sim.inflight):
+            sim.deliver(m)       # -> msg-lost
+        if act:
+            for _ in range(1 if act == 1 else 20):
+                for job in sorted(sim.live_jobs(), key=lambda j: j.key):
+                    msg = sim.advance(job)
+                    if msg is not None:
+                        sim.deliver(msg)     # lost
+        await self.restart()
 
     async def drain(self, cap=2000, quiet_needed=25, delays=None,
                     ret_delays=None, poll_every=0) -> Tuple[bool, bool]:
